@@ -296,7 +296,22 @@ func boundsObligations(p *load.Program, fn *ssa.Function) []panicOb {
 			if x.Len != x.Cap && facts.Term(x.Len) != facts.Term(x.Cap) {
 				lk, okL := constInt(x.Len)
 				if !(okL && lk == 0) {
-					if ck, okC := constInt(x.Cap); !(okL && okC && lk <= ck) {
+					capOK := false
+					// cap = len + n (or K + n with K >= len) for a non-negative n
+					if b, isB := x.Cap.(*ssa.BinOp); isB && b.Op == token.ADD {
+						for _, pr := range [][2]ssa.Value{{b.X, b.Y}, {b.Y, b.X}} {
+							if !nonNegative(pr[1], facts.At(i, nil), 0) {
+								continue
+							}
+							if pr[0] == x.Len || facts.Term(pr[0]) == facts.Term(x.Len) {
+								capOK = true
+							}
+							if k, isK := constInt(pr[0]); isK && okL && k >= lk {
+								capOK = true
+							}
+						}
+					}
+					if ck, okC := constInt(x.Cap); !(okL && okC && lk <= ck) && !capOK {
 						out = append(out, panicOb{Instr: i, Kind: "makeslice", Desc: "make(len " + facts.Term(x.Len) + ", cap " + facts.Term(x.Cap) + ")", Why: "cap >= len is not established"})
 					}
 				}
